@@ -583,3 +583,63 @@ pub struct DB(pub u8);
 impl From<bool> for DB { fn from(x: bool) -> DB { DB(10 + x as u8) } }
 pub const K7: u8 = 7;
 pub fn mk_v(n: u8) -> V { V(n) }
+
+// ------------------------------------------------------------------------------------------
+// C06: Debug helpers
+
+/// type for ignored positions under Debug: formatting it panics
+#[derive(Clone, Copy, PartialEq)]
+pub struct ID(pub u8);
+impl fmt::Debug for ID {
+    fn fmt(&self, _: &mut fmt::Formatter<'_>) -> fmt::Result {
+        panic!("POISON: ignored field formatted")
+    }
+}
+
+#[derive(Clone, Debug, PartialEq)]
+pub struct Nest {
+    pub a: u8,
+    pub b: Vec<u8>,
+}
+pub fn nest(a: u8) -> Nest {
+    Nest { a, b: vec![a, a + 1] }
+}
+
+/// custom format method
+pub fn fmt_m<T: fmt::Debug>(v: &T, f: &mut fmt::Formatter<'_>) -> fmt::Result {
+    f.write_str("<")?;
+    fmt::Debug::fmt(v, f)?;
+    f.write_str(">")
+}
+
+pub struct Raw(pub &'static str);
+impl fmt::Debug for Raw {
+    fn fmt(&self, f: &mut fmt::Formatter<'_>) -> fmt::Result {
+        f.write_str(self.0)
+    }
+}
+/// model-side wrapper that formats through the custom method
+pub struct Via<'a, T>(pub &'a T);
+impl<'a, T: fmt::Debug> fmt::Debug for Via<'a, T> {
+    fn fmt(&self, f: &mut fmt::Formatter<'_>) -> fmt::Result {
+        fmt_m(self.0, f)
+    }
+}
+pub struct ModelFmt<'a, T>(pub &'a T, pub fn(&T, &mut fmt::Formatter<'_>) -> fmt::Result);
+impl<'a, T> fmt::Debug for ModelFmt<'a, T> {
+    fn fmt(&self, f: &mut fmt::Formatter<'_>) -> fmt::Result {
+        (self.1)(self.0, f)
+    }
+}
+
+pub fn debug_check<T>(r: &mut Rep, vs: &[T], got: &dyn Fn(&T, bool) -> String, model: fn(&T, &mut fmt::Formatter<'_>) -> fmt::Result) {
+    for (i, x) in vs.iter().enumerate() {
+        for alt in [false, true] {
+            let want = if alt { format!("{:#?}", ModelFmt(x, model)) } else { format!("{:?}", ModelFmt(x, model)) };
+            match guarded(|| got(x, alt)) {
+                Ok(g) => r.ck(g == want, alt as u64 + 2 * (i as u64 % 4), &|| format!("value #{} {}: got {:?}, the builders give {:?}", i, if alt { "{:#?}" } else { "{:?}" }, g, want)),
+                Err(p) => r.ck(false, 99, &|| format!("value #{} formatting panicked: {}", i, p)),
+            }
+        }
+    }
+}
